@@ -51,11 +51,32 @@ impl Ord for PreReleaseIdentifier {
     fn cmp(&self, other: &Self) -> Ordering {
         match (self, other) {
             (PreReleaseIdentifier::UInt(a), PreReleaseIdentifier::UInt(b)) => a.cmp(b),
-            (PreReleaseIdentifier::Str(a), PreReleaseIdentifier::Str(b)) => a.cmp(b),
+            (PreReleaseIdentifier::Str(a), PreReleaseIdentifier::Str(b)) => {
+                // A numeric identifier that does not fit u64 is kept as text by the parser; it is
+                // still numeric: below every alphanumeric identifier, and ordered by value.
+                match (is_oversized_numeric(a), is_oversized_numeric(b)) {
+                    (true, true) => compare_numeric_text(a, b),
+                    (true, false) => Ordering::Less,
+                    (false, true) => Ordering::Greater,
+                    (false, false) => a.cmp(b),
+                }
+            }
             (PreReleaseIdentifier::UInt(_), PreReleaseIdentifier::Str(_)) => Ordering::Less,
             (PreReleaseIdentifier::Str(_), PreReleaseIdentifier::UInt(_)) => Ordering::Greater,
         }
     }
+}
+
+/// All ASCII digits, but too large for `PreReleaseIdentifier::UInt`
+fn is_oversized_numeric(text: &str) -> bool {
+    !text.is_empty() && text.bytes().all(|b| b.is_ascii_digit()) && text.parse::<u64>().is_err()
+}
+
+/// Compare two digit strings by numeric value
+fn compare_numeric_text(a: &str, b: &str) -> Ordering {
+    let a = a.trim_start_matches('0');
+    let b = b.trim_start_matches('0');
+    a.len().cmp(&b.len()).then_with(|| a.cmp(b))
 }
 
 fn compare_pre_release_identifiers(
